@@ -13,23 +13,23 @@ Example odd_port_configured :
   serial_bus_try_new odd_port
   = Ok {| sp_settings := {| s_baud := Baud19200; s_csize := Bits8; s_parity := ParityNone;
                             s_stop := Stop1; s_flow := FlowNone |};
-          sp_timeout := Some 5000; sp_fail := FailNone |}
+          sp_timeout := Some 5000000000; sp_fail := FailNone |}
   /\ odk_try_new odd_port
   = Ok {| sp_settings := {| s_baud := Baud19200; s_csize := Bits8; s_parity := ParityNone;
                             s_stop := Stop1; s_flow := FlowNone |};
-          sp_timeout := Some 10000; sp_fail := FailNone |}.
+          sp_timeout := Some 10000000000; sp_fail := FailNone |}.
 Proof. vm_compute. auto. Qed.
 
 Example exotic_baud_configured :
   configure_port {| sp_settings := {| s_baud := BaudOther 31250; s_csize := Bits5;
                                       s_parity := ParityOdd; s_stop := Stop2;
                                       s_flow := FlowSoftware |};
-                    sp_timeout := None; sp_fail := FailNone |} 5000
-  = Ok {| sp_settings := wanted; sp_timeout := Some 5000; sp_fail := FailNone |}.
+                    sp_timeout := None; sp_fail := FailNone |} 5000000000
+  = Ok {| sp_settings := wanted; sp_timeout := Some 5000000000; sp_fail := FailNone |}.
 Proof. vm_compute. reflexivity. Qed.
 
 Example failing_port_errors :
-  map (fun fl => configure_port {| sp_settings := wanted; sp_timeout := None; sp_fail := fl |} 5000)
+  map (fun fl => configure_port {| sp_settings := wanted; sp_timeout := None; sp_fail := fl |} 5000000000)
       [FailRead; FailSetBaud; FailWrite; FailTimeout]
   = [Err (PErr FailRead); Err (PErr FailSetBaud); Err (PErr FailWrite); Err (PErr FailTimeout)].
 Proof. vm_compute. reflexivity. Qed.
@@ -48,13 +48,13 @@ Print Assumptions C20_ok_means_configured.
 
 Theorem C20_serial_bus_ok :
   forall p p', serial_bus_try_new p = Ok p' ->
-  sp_settings p' = wanted /\ sp_timeout p' = Some 5000 /\ sp_fail p = FailNone.
+  sp_settings p' = wanted /\ sp_timeout p' = Some 5000000000 /\ sp_fail p = FailNone.
 Proof. exact PortP.C20_serial_bus_ok. Qed.
 Print Assumptions C20_serial_bus_ok.
 
 Theorem C20_odk_ok :
   forall p p', odk_try_new p = Ok p' ->
-  sp_settings p' = wanted /\ sp_timeout p' = Some 10000 /\ sp_fail p = FailNone.
+  sp_settings p' = wanted /\ sp_timeout p' = Some 10000000000 /\ sp_fail p = FailNone.
 Proof. exact PortP.C20_odk_ok. Qed.
 Print Assumptions C20_odk_ok.
 
@@ -85,7 +85,7 @@ Print Assumptions C20_constructors_fail.
 
 Theorem C20_constructors_succeed :
   forall p, sp_fail p = FailNone ->
-  serial_bus_try_new p = Ok {| sp_settings := wanted; sp_timeout := Some 5000; sp_fail := FailNone |}
-  /\ odk_try_new p = Ok {| sp_settings := wanted; sp_timeout := Some 10000; sp_fail := FailNone |}.
+  serial_bus_try_new p = Ok {| sp_settings := wanted; sp_timeout := Some 5000000000; sp_fail := FailNone |}
+  /\ odk_try_new p = Ok {| sp_settings := wanted; sp_timeout := Some 10000000000; sp_fail := FailNone |}.
 Proof. exact PortP.C20_constructors_succeed. Qed.
 Print Assumptions C20_constructors_succeed.
